@@ -8,8 +8,9 @@
   What is assumed (hypotheses of `refines`, all decidable, see `wf`): message types are the declared ones (≤ Unknown = 13),
   only ids handed out by Subscribe are cancelled, and the clock-derived suffix is not repeated within one
   (session, type). The excluded points have their lemmas below (`beyond_enum_point`, `same_suffix_point`).
-  Mutual exclusion: every manager method runs under one mutex (fact regenerated from the source, Oblig/C12), so a
-  concurrent execution is one of the sequential histories quantified over here.
+  Mutual exclusion is ASSUMED, not checked: every manager method takes the one mutex for its whole body (read off
+  the source by hand; no regenerated fact), so a concurrent execution is one of the sequential histories quantified
+  over here. Data-race freedom is not examined.
 -/
 import SygmaModel.Model.C12
 namespace Sygma.C12
